@@ -244,3 +244,182 @@ class ColBufC07(ColBufSpec):
 
 class ColBufC13(ColBufSpec):
     which = "C13"
+
+
+# ----------------------------------------------------------------------------------------------------
+# C01.g : type degradation (Empty/Int/Float/String/Mixed) through push_val and the conversion done by finalize
+# ----------------------------------------------------------------------------------------------------
+import re as _re
+from ..mirsym.models import iter_next, iter_clone, seq_of, IterV
+from ..mirsym.values import Opaque
+
+
+class MixedFinalizeSpec(KernelSpec):
+    """shape = tuple of value kinds pushed with ColumnBuffer::push_val: 'i' int, 'f' float, 's' string, 'n' NULL.
+    After finalize the column handed to the column builders has exactly one slot per row, string rows keep their bytes,
+    and rows without a value are NULL."""
+    diff_cases = 1
+
+    def get_fn(self, ctx, inst):
+        return None
+
+    def instantiations(self, tier):
+        return [{"nat": "colbuf_pushval"}]
+
+    def shapes(self, tier, inst):
+        import itertools
+        out = []
+        for k in range(1, (3 if tier == "quick" else 4) + 1):
+            for seq in itertools.product("ifsn", repeat=k):
+                if tier == "quick" and k == 3 and "s" not in seq:
+                    continue
+                out.append(seq)
+        return out
+
+    def sym_inputs(self, inst, shape):
+        inp = {}
+        pre = []
+        for k, kind in enumerate(shape):
+            if kind == "i":
+                inp[f"v{k}"] = I("i64", 10 + k)          # concrete: IntColBuffer::push forks on values, not the subject here
+            elif kind == "f":
+                inp[f"v{k}"] = sym("f64", f"f{k}")
+            elif kind == "s":
+                b = sym("u8", f"s{k}")
+                pre += [z3.UGE(b.v, 0x67), z3.ULE(b.v, 0x7a)]      # one ASCII letter g..z (not hex)
+                inp[f"v{k}"] = [b]
+        return inp, pre
+
+    def rawval(self, kind, v):
+        if kind == "i":
+            return Agg("enum", [v], name="RawVal", variant="Int")
+        if kind == "f":
+            return Agg("enum", [Agg("struct", [v], name="OrderedFloat")], name="RawVal", variant="Float")
+        if kind == "s":
+            return Agg("enum", [VecObj(list(v), "u8", is_str=True)], name="RawVal", variant="Str")
+        return Agg("enum", [], name="RawVal", variant="Null")
+
+    def explore(self, ctx, ex, fn, inst, shape, inp, pre):
+        def rec_strings(ex_, st, fr, path, args, m):
+            # fast_build_string_column(name, strings, len, lhex, uhex, total_bytes, present)
+            it = args[1]
+            work = iter_clone(it) if isinstance(it, IterV) else None
+            strs = []
+            while work is not None:
+                o = iter_next(ex_, st, work)
+                if o.variant == "None":
+                    break
+                el, lo, hi = seq_of(o.fields[0])
+                strs.append(list(el[lo:hi]))
+            st.env["built"] = {"kind": "str", "len": args[2], "strings": strs, "present": args[6]}
+            return Ref(Cell(Opaque("Column")))
+
+        def rec_ints(ex_, st, fr, path, args, m):
+            st.env["built"] = {"kind": "int", "len": I("usize", len(args[1].elems)), "vals": list(args[1].elems), "present": args[5]}
+            return Ref(Cell(Opaque("Column")))
+
+        def rec_floats(ex_, st, fr, path, args, m):
+            st.env["built"] = {"kind": "float", "len": I("usize", len(args[1].elems)), "vals": list(args[1].elems), "present": args[2]}
+            return Ref(Cell(Opaque("Column")))
+
+        def rec_null(ex_, st, fr, path, args, m):
+            st.env["built"] = {"kind": "null", "len": args[1], "present": Agg("enum", [], name="Option", variant="None")}
+            return Opaque("Column")
+        ex.stubs = [(_re.compile(r"(?:^|::)fast_build_string_column::<"), rec_strings), (_re.compile(r"(?:^|::)IntegerColumn::new_boxed$"), rec_ints),
+                    (_re.compile(r"(?:^|::)FloatColumn::new_boxed$"), rec_floats), (_re.compile(r"(?:^|::)Column::null$"), rec_null),
+                    (_re.compile(r"^std::mem::transmute::<Vec<f64>|^(?:core|std)::intrinsics::transmute::<Vec<f64>"), lambda ex_, st, fr, path, args, m: args[0])]
+        dflt, _ = ex.resolve_method("ColumnBuffer", "Default", "default")
+        push, _ = ex.resolve_method("ColumnBuffer", None, "push_val")
+        fin, _ = ex.resolve_method("ColumnBuffer", None, "finalize")
+        calls = [(dflt, lambda env: [], {}, "cb")]
+        for k, kind in enumerate(shape):
+            calls.append((push, lambda env, k=k, kind=kind: [Ref(env["cb"], (), None, False, True), self.rawval(kind, inp.get(f"v{k}"))], {}))
+        from .routing import str_ref
+        calls.append((fin, lambda env: [env["cb"].v, str_ref([I("u8", 120)])], {}))
+        return run_sequence(ex, pre, {}, calls)
+
+    def view(self, state):
+        b = state.env.get("built")
+        if b is None:
+            return None
+        pres = b["present"]
+        p = None
+        if isinstance(pres, Agg) and pres.variant == "Some":
+            p = list(pres.fields[0].elems)
+        return {"kind": b["kind"], "len": b["len"], "strings": b.get("strings"), "nvals": len(b.get("vals", b.get("strings") or [])) if b["kind"] != "null" else None, "present": p}
+
+    def post(self, inst, shape, inp, value, state=None):
+        v = self.view(state) if state is not None else value
+        n = len(shape)
+        if v is None:
+            return [("finalize builds a column", B(False))]
+        kinds = set(shape) - {"n"}
+        want = "null" if not kinds else ("str" if ("s" in kinds or len(kinds) > 1 and "s" in kinds) else ("float" if "f" in kinds else "int"))
+        if "s" in kinds:
+            want = "str"
+        conds = [("column length == number of rows pushed", binop("Eq", v["len"], I("usize", n))),
+                 (f"column type is the documented common type ({want})", B(v["kind"] == want))]
+        if v["kind"] != "null":
+            conds.append(("one stored slot per row (no row lost or shifted)", B(v["nvals"] == n)))
+        if v["kind"] == "str" and v["nvals"] == n:
+            for k, kind in enumerate(shape):
+                if kind == "s":
+                    got = v["strings"][k]
+                    if got is None:
+                        continue
+                    conds.append((f"row {k}: string stored at its own row", B(len(got) == 1) if len(got) != 1 else binop("Eq", got[0], inp[f"v{k}"][0])))
+        if "n" in shape and v["kind"] != "null":
+            conds.append(("a null map is kept when some row has no value", B(v["present"] is not None)))
+            if v["present"] is not None:
+                for k, kind in enumerate(shape):
+                    conds.append((f"row {k}: NULL exactly where no value was pushed", binop("Eq", bit(v["present"], k), B(kind != "n"))))
+        return conds
+
+    def random_inputs(self, rng, inst, shape):
+        inp, _ = self.sym_inputs(inst, shape)
+        out = {}
+        for k, v in inp.items():
+            if isinstance(v, list):
+                out[k] = [I("u8", rng.randint(0x67, 0x7a))]
+            elif v.concrete:
+                out[k] = v
+            else:
+                out[k] = I("f64", rng.choice([0x3ff8000000000000, 0x4004000000000000, 0xbff0000000000000]))
+        return out
+
+    def native(self, inst, shape, inp):
+        if inp is None:
+            return ("colbuf_pushval", [])
+        toks = []
+        for k, kind in enumerate(shape):
+            if kind == "i":
+                toks.append(f"i:{inp[f'v{k}'].v}")
+            elif kind == "f":
+                toks.append(f"f:{inp[f'v{k}'].v}")
+            elif kind == "s":
+                toks.append("s:" + bytes(x.v for x in inp[f"v{k}"]).hex())
+            else:
+                toks.append("n")
+        return ("colbuf_pushval", toks)
+
+    def parse_native(self, inst, shape, toks):
+        # <len> <kind> <nvals|-> <strings hex,..|-> <present|none>
+        kind = toks[1]
+        strs = None
+        if kind == "str":
+            strs = [] if toks[3] == "-" else [[I("u8", x) for x in bytes.fromhex(h)] if h != "_" else [] for h in toks[3].split(",")]
+        if strs is not None:
+            strs = [x if (k < len(shape) and shape[k] == "s") else None for k, x in enumerate(strs)]
+        pres = None if toks[4] == "none" else parse_ints(toks[4], "u8")
+        return {"kind": kind, "len": I("usize", int(toks[0])), "strings": strs, "nvals": None if toks[2] == "-" else int(toks[2]),
+                "present": pres}
+
+    def native_view(self, inst, shape, v, st):
+        d = self.view(st)
+        if d and d["strings"] is not None:
+            # number renderings (i64/f64 to_string) are not modelled: compare only the rows that were pushed as strings
+            d = dict(d)
+            d["strings"] = [x if (k < len(shape) and shape[k] == "s") else None for k, x in enumerate(d["strings"])]
+        if d and d["present"] is not None:
+            d["present"] = d["present"][:nb(len(shape))]
+        return d
